@@ -41,6 +41,7 @@ var crashPoints = []struct {
 	{"during-stdio", "all"},
 	{"extra-stdout", "all"},
 	{"attached-before-connect", "grpc-nomux"},
+	{"mux-knock-unanswered", "grpcmux"},
 }
 
 var c03Seq int64
@@ -254,6 +255,38 @@ func runCrashCase(c *crashCase) (impl, pred string) {
 		case "broker-plugin-accept", "broker-plugin-dial":
 			r, el = timed(15*time.Second, func() error { return kit.Callback() })
 			note("callback", r, el, 9*time.Second)
+		case "mux-knock-unanswered":
+			// a brokered dial whose knock is on its way / parked on the plugin (nobody has accepted the id) when the plugin dies
+			if gk, ok := kit.(*kitGRPCClient); ok {
+				done := make(chan string, 1)
+				go func() {
+					r, _ := timed(15*time.Second, func() error {
+						conn, err := gk.broker.Dial(gk.broker.NextId())
+						if err != nil {
+							return err
+						}
+						defer conn.Close()
+						_, err = pingConn(conn, 12*time.Second)
+						return err
+					})
+					done <- r
+				}()
+				time.Sleep(500 * time.Millisecond)
+				kit.Cmd("kill-later", 5)
+				if cmd.Process != nil {
+					waitDead(cmd.Process.Pid, 3*time.Second)
+				}
+				select {
+				case r := <-done:
+					res["call"] = r
+					if r == "hang" || r == "panic" || r == "ok" {
+						fails = append(fails, "dial-in-flight-"+r)
+					}
+				case <-time.After(16 * time.Second):
+					res["call"] = "hang"
+					fails = append(fails, "dial-in-flight-hang")
+				}
+			}
 		case "extra-stdout":
 			// the plugin prints further lines on its real stdout, then dies
 			kit.Cmd("rawout", 3)
@@ -398,6 +431,9 @@ func init() {
 						continue
 					}
 					if pt.protos == "grpc-nomux" && proto != "grpc" {
+						continue
+					}
+					if pt.protos == "grpcmux" && proto != "grpcmux" {
 						continue
 					}
 					cases = append(cases, &crashCase{proto, pt.name})
